@@ -26,6 +26,9 @@ func checkC20(c *Ctx) {
 	l := c.V2
 	c.rule("DOM-replay-hash-check", "a reloaded version is accepted only if its recomputed root hash equals the stored one", 3)
 	c.rule("ERR-sqlite", "errors of SQLite-reaching calls are not dropped or swallowed", 100)
+	c.rule("SQL-schema", "every SQL statement names existing tables / columns; INSERT, UNION and duplicate CREATE lists agree", 40)
+	c.rule("SQL-arity", "placeholders = bound values and result columns = Scan destinations, for every statement a prepared-statement variable can hold", 30)
+	c.rule("SQL-roles", "NodeKey version / sequence are bound to and scanned from *version / *sequence columns", 15)
 	if l == nil {
 		c.fatal = append(c.fatal, "v2 module not loaded")
 		return
@@ -90,6 +93,7 @@ func checkC20(c *Ctx) {
 			c.bad("DOM-replay-hash-check", "LoadVersion replays the change log", l.pos(lv.Pos()), "LoadVersion no longer replays")
 		}
 	}
+	checkSQLRules(c, l, "SQL-schema", "SQL-arity", "SQL-roles")
 	ea := newErrAnalysisWith(c, l, sqliteOps())
 	ea.runE1E2E4("ERR-sqlite", "ERR-sqlite", "ERR-sqlite", func(fn *ssa.Function) bool {
 		p := l.pkgPathOf(fn)
